@@ -139,6 +139,14 @@ func (l *Lexer) readMultiComment() string {
 	defer pool.Put(buf)
 	buf.Reset()
 
+	// Consume the opening "/*" first: its asterisk must not be taken for the one of the closing "*/" ("/*/" opens a comment)
+	buf.WriteRune(l.char)
+	l.readChar()
+	if l.char != 0x00 {
+		buf.WriteRune(l.char)
+		l.readChar()
+	}
+
 	for l.char != 0x00 {
 		if l.char == '*' && l.peekChar() == '/' {
 			buf.WriteRune(l.char)
